@@ -17,6 +17,9 @@ Hypothesis Hun : forall o a, P a -> P (EUn o a).
 Hypothesis Hbin : forall o a b, P a -> P b -> P (EBin o a b).
 Hypothesis Hcall : forall f args, Forall P args -> P (ECall f args).
 Hypothesis Hcond : forall c a b, P c -> P a -> P b -> P (ECond c a b).
+Hypothesis Harr : forall es, Forall P es -> P (EArr es).
+Hypothesis Hat : forall a i, P a -> P i -> P (EAt a i).
+Hypothesis Hlen : forall a, P a -> P (ELen a).
 Fixpoint expr_ind2 (e : expr) : P e :=
   match e with
   | ENum z => Hnum z | EBool b => Hbool b | EStr s => Hstr s | EVar x => Hvar x
@@ -26,6 +29,11 @@ Fixpoint expr_ind2 (e : expr) : P e :=
       Hcall f args ((fix go (l : list expr) : Forall P l :=
                        match l with [] => Forall_nil P | a :: r => Forall_cons a (expr_ind2 a) (go r) end) args)
   | ECond c a b => Hcond c a b (expr_ind2 c) (expr_ind2 a) (expr_ind2 b)
+  | EArr es =>
+      Harr es ((fix go (l : list expr) : Forall P l :=
+                  match l with [] => Forall_nil P | a :: r => Forall_cons a (expr_ind2 a) (go r) end) es)
+  | EAt a i => Hat a i (expr_ind2 a) (expr_ind2 i)
+  | ELen a => Hlen a (expr_ind2 a)
   end.
 End ExprInd.
 
@@ -55,7 +63,7 @@ Proof.
   - intros H1; injection H1 as <-.
     destruct (ty_expr F G L e1) as [ta|]; [|discriminate]. destruct (ty_expr F G L e2) as [tb|]; [|discriminate].
     destruct o; simpl; try (destruct ta, tb; simpl; congruence);
-      try (destruct (ty_eqb ta tb && negb (is_void ta)); congruence).
+      try (destruct (ty_eqb ta tb && negb (is_void ta) && negb (is_arr ta)); congruence).
 Qed.
 
 (* ------------------------------------------------------------------ argument lists *)
@@ -83,6 +91,15 @@ Proof.
   - destruct (ty_expr F G L a); [|reflexivity]. rewrite (IH l ts t k Hn); [apply andb_false_r|lia].
 Qed.
 
+(* an array literal with an ill-typed element is ill-typed *)
+Lemma elems_ok_bad_elem F G L a' : ty_expr F G L a' = None ->
+  forall pre post, elems_ok F G L (pre ++ a' :: post) = false.
+Proof.
+  intros Ha. induction pre as [|b pre IH]; intros post; simpl.
+  - rewrite Ha. reflexivity.
+  - destruct (ty_expr F G L b) as [[| | | |]|]; try reflexivity. apply IH.
+Qed.
+
 (* ------------------------------------------------------------------ contexts *)
 Lemma option_map_some {A B} (f : A -> B) o b : option_map f o = Some b -> exists a, o = Some a /\ b = f a.
 Proof. destruct o; simpl; [|discriminate]. intros H. injection H as <-. eauto. Qed.
@@ -96,7 +113,7 @@ Hypothesis Hfe : forall e0 e0' L, fe e0 = Some e0' -> Q L -> ty_expr F G L e0' =
 
 Lemma at_expr_ill : forall e pos e' L, at_expr pos fe e = Some e' -> Q L -> ty_expr F G L e' = None.
 Proof.
-  induction e as [z|b0|s0|x|o a IHa|o a b IHa IHb|f args IHargs|c a b IHc IHa IHb] using expr_ind2;
+  induction e as [z|b0|s0|x|o a IHa|o a b IHa IHb|f args IHargs|c a b IHc IHa IHb|es IHes|a i IHa IHi|a IHa] using expr_ind2;
     intros pos e' L Hat HQL; (destruct pos as [|k pos']; [exact (Hfe _ _ _ Hat HQL)|]);
     simpl in Hat; try discriminate Hat.
   - (* un *)
@@ -121,9 +138,27 @@ Proof.
   - (* cond *)
     destruct k as [|[|[|k]]]; try discriminate; apply option_map_some in Hat; destruct Hat as [a' [Ha ->]]; simpl.
     + rewrite (IHc _ _ _ Ha HQL). reflexivity.
-    + rewrite (IHa _ _ _ Ha HQL). destruct (ty_expr F G L c) as [[| | |]|]; reflexivity.
-    + rewrite (IHb _ _ _ Ha HQL). destruct (ty_expr F G L c) as [[| | |]|]; try reflexivity.
+    + rewrite (IHa _ _ _ Ha HQL). destruct (ty_expr F G L c) as [[| | | |]|]; reflexivity.
+    + rewrite (IHb _ _ _ Ha HQL). destruct (ty_expr F G L c) as [[| | | |]|]; try reflexivity.
       destruct (ty_expr F G L a); reflexivity.
+  - (* array literal *)
+    apply option_map_some in Hat. destruct Hat as [es' [Hgo ->]].
+    assert (S : exists pre a' post, es' = pre ++ a' :: post /\ ty_expr F G L a' = None).
+    { revert k es' Hgo. induction IHes as [|a l Ha Hl IH]; intros k es' Hgo; [discriminate|].
+      destruct k as [|k].
+      - apply option_map_some in Hgo. destruct Hgo as [a' [E ->]].
+        exists [], a', l. split; [reflexivity|]. exact (Ha _ _ _ E HQL).
+      - apply option_map_some in Hgo. destruct Hgo as [r' [E ->]].
+        destruct (IH _ _ E) as [pre [b' [post [-> Hb]]]]. exists (a :: pre), b', post. split; [reflexivity|exact Hb]. }
+    destruct S as [pre [a' [post [-> Ha']]]].
+    rewrite ty_expr_arr. rewrite (elems_ok_bad_elem F G L a' Ha'). reflexivity.
+  - (* at *)
+    destruct k as [|[|k]]; try discriminate; apply option_map_some in Hat; destruct Hat as [a' [Ha ->]]; simpl.
+    + rewrite (IHa _ _ _ Ha HQL). reflexivity.
+    + rewrite (IHi _ _ _ Ha HQL). destruct (ty_expr F G L a) as [[| | | |]|]; reflexivity.
+  - (* array_length *)
+    destruct k; [|discriminate]. apply option_map_some in Hat. destruct Hat as [a' [Ha ->]].
+    simpl. rewrite (IHa _ _ _ Ha HQL). reflexivity.
 Qed.
 
 Variable ret : ty.
@@ -261,6 +296,17 @@ Proof.
       destruct (ty_expr F G L e0_2) as [tb|] eqn:Eb; [|reflexivity].
       pose proof (abs_ty_sound _ _ _ _ _ _ Ab Eb) as ->.
       destruct (ty_binop o t' T) eqn:Bq; [|reflexivity]. pose proof (eq_same _ _ _ _ A Lg Bq). congruence.
+  - (* array literal: the first element *)
+    destruct es as [|e1 r]; [discriminate|]. intros H; injection H as <-. rewrite ty_expr_arr. cbn [elems_ok].
+    destruct (wrong_lit_ty F G L TInt k) as [t' [E N]]. rewrite E. destruct t'; try reflexivity. contradiction.
+  - (* at: index or array operand *)
+    intros H; injection H as <-. destruct (N.odd arg); simpl.
+    + destruct (ty_expr F G L e0_1) as [[| | | |]|]; try reflexivity.
+      destruct (wrong_lit_ty F G L TInt k) as [t' [E N]]. rewrite E. destruct t'; try reflexivity. contradiction.
+    + destruct (wrong_lit_ty F G L TArr k) as [t' [E N]]. rewrite E. destruct t'; try reflexivity. contradiction.
+  - (* array_length *)
+    intros H; injection H as <-. simpl.
+    destruct (wrong_lit_ty F G L TArr k) as [t' [E N]]. rewrite E. destruct t'; try reflexivity. contradiction.
 Qed.
 
 Lemma rw_argtype_ill F G arg e0 e0' L : rw_argtype F arg e0 = Some e0' -> ty_expr F G L e0' = None.
